@@ -98,6 +98,7 @@ func specMin(a, b int64) int64 {
 //@   ensures forall ue string, rg uint32 :: specNames(specReq(), ue, rg) && old(specAcct(ue, rg)) && old(specBal(ue, rg)) >= 0 && specIsReserve(specReq()) ==> specAns().MultipleServicesCreditControl != nil && specAns().MultipleServicesCreditControl.GrantedServiceUnit != nil && specGranted(specAns()) == specMin(specReqUnits(specReq()), old(specBal(ue, rg)))
 //@   ensures forall ue string, rg uint32 :: specNames(specReq(), ue, rg) && old(specAcct(ue, rg)) && old(specBal(ue, rg)) >= 0 && specIsReserve(specReq()) ==> specAcct(ue, rg) && specBal(ue, rg) == old(specBal(ue, rg))-specGranted(specAns()) && specBal(ue, rg) >= 0
 //@   ensures forall ue string, rg uint32 :: specNames(specReq(), ue, rg) && old(specAcct(ue, rg)) && old(specBal(ue, rg)) >= 0 && specIsReserve(specReq()) ==> (specAns().MultipleServicesCreditControl.FinalUnitIndication != nil) == (specReqUnits(specReq()) > old(specBal(ue, rg)))
+//@   ensures forall ue string, rg uint32 :: specNames(specReq(), ue, rg) && old(specAcct(ue, rg)) && old(specBal(ue, rg)) >= 0 && specIsReserve(specReq()) && specAns().MultipleServicesCreditControl.FinalUnitIndication != nil ==> specAns().MultipleServicesCreditControl.FinalUnitIndication.FinalUnitAction == charging_datatype.TERMINATE
 
 //@   ensures forall ue string, rg uint32 :: specNames(specReq(), ue, rg) && old(specAcct(ue, rg)) && specReq().RequestedAction == charging_datatype.REFUND_ACCOUNT && old(specBal(ue, rg))+specReqUnits(specReq()) >= old(specBal(ue, rg)) ==> specAcct(ue, rg) && specBal(ue, rg) == old(specBal(ue, rg))+specReqUnits(specReq())
 //@   ensures forall ue string, rg uint32 :: specNames(specReq(), ue, rg) && old(specAcct(ue, rg)) && specReq().RequestedAction == charging_datatype.DIRECT_DEBITING && specReq().CcRequestType == charging_datatype.TERMINATION_REQUEST && old(specBal(ue, rg))-specUsedUnits(specReq()) <= old(specBal(ue, rg)) ==> specAcct(ue, rg) && specBal(ue, rg) == old(specBal(ue, rg))-specUsedUnits(specReq())
